@@ -33,7 +33,10 @@ SEARCH = {
 NAN = float("nan")
 # (the last four are callables: a vertex tagged with a handler function, a payload class, a builtin - the sought value
 # is compared with ==, never called)
-STORED = [0, 1, 2, 1000, "ab", ("x", 1), None, True, 2.5, "", -1, 10 ** 20, NAN, zoo.r_accept, zoo.r_reject, len, zoo.VSub]
+# (then: UNHASHABLE stored values that equal a hashable sought value of another type - bytearray == bytes,
+# set == frozenset - and a list, which equals only lists)
+STORED = [0, 1, 2, 1000, "ab", ("x", 1), None, True, 2.5, "", -1, 10 ** 20, NAN, zoo.r_accept, zoo.r_reject, len, zoo.VSub,
+          bytearray(b"xy"), {1, 2}, [1, [2]], b"xy", frozenset({1, 2})]
 
 
 def sought(i):
@@ -43,6 +46,16 @@ def sought(i):
         return v  # the identical object: identity does not imply equality, nan != nan, so nothing matches
     if isinstance(v, bool) or v is None or callable(v):
         return v
+    if isinstance(v, bytearray):
+        return bytes(v)            # equal, hashable, another type
+    if isinstance(v, set):
+        return frozenset(v)
+    if isinstance(v, list):
+        return [x if not isinstance(x, list) else list(x) for x in v]
+    if isinstance(v, bytes):
+        return bytearray(v)        # ... and the other way round
+    if isinstance(v, frozenset):
+        return set(v)
     if isinstance(v, int):
         return float(v) if abs(v) < 2 ** 50 else int(str(v))
     if isinstance(v, float):
@@ -82,7 +95,8 @@ def floors(ctx):
             "some_vertex_lacks_attr": 100, "match_only_outside_universe": 10, "cases_with_caching_on": 100, "identical_but_unequal_value_sought": 20,
             "match_through_class_level_attribute_or_property": 100,
             "cases_with_attribute_name_that_is_not_an_identifier": 100, "searches_over_unhashable_vertices": 50,
-            "cases_with_start_outside_the_universe": 50, "sought_value_is_callable": 50}
+            "cases_with_start_outside_the_universe": 50, "sought_value_is_callable": 50,
+            "match_equal_across_types_one_side_unhashable": 50}
 
 
 def _matches(v, attr, val):
@@ -99,7 +113,7 @@ def run_case(ctx, spec, si, attr, vi, absent=None, _shrinking=False, cache=False
 
 def _stored_ref(i):
     """JSON-able stand-in for a stored value that JSON cannot carry (a callable)."""
-    return ["@stored", i] if callable(STORED[i]) else STORED[i]
+    return ["@stored", i] if callable(STORED[i]) or isinstance(STORED[i], (bytearray, bytes, set, frozenset, list)) else STORED[i]
 
 
 def _resolved(spec):
@@ -172,6 +186,8 @@ def _run_case(ctx, spec, si, attr, vi, absent, _shrinking, cache):
                 ctx.count("sought_not_identical")
             if callable(val):
                 ctx.count("sought_value_is_callable")
+            if type(getattr(exp, attr)) is not type(val) and isinstance(val, (bytes, bytearray, set, frozenset)):
+                ctx.count("match_equal_across_types_one_side_unhashable")
             if attr not in vars(exp):
                 ctx.count("match_through_class_level_attribute_or_property")
         else:
